@@ -478,6 +478,10 @@ class TextNmea2000Gateway(AsyncIOClient):
         by the _receive_loop() method.
         """
         data = await self.reader.readline()
+        if not data:
+            # readline() returns b'' only at end of stream: the gateway closed the connection.
+            # Raise so that _receive_loop reports DISCONNECTED and reconnects (and does not spin on EOF).
+            raise ConnectionError("Connection closed by the gateway")
         self.logger.debug(f"Received: {data.hex()}")
         line = data.decode('utf-8', errors='ignore').strip()
         try:
@@ -683,6 +687,10 @@ class WaveShareNmea2000Gateway(AsyncIOClient):
         It's called repeatedly by the _receive_loop() method.
         """
         data = await self.reader.read(100)
+        if not data:
+            # read() returns b'' only at end of stream: the port was closed.
+            # Raise so that _receive_loop reports DISCONNECTED and reconnects (and does not spin on EOF).
+            raise ConnectionError("Serial connection closed")
         self.logger.debug(f"Received: {data.hex()}")
         assert self._buffer is not None
         self._buffer.extend(data)
